@@ -167,6 +167,15 @@ def tie_all(ctx, binary, projs, label, want_t1=True):
     return programs.pmap(one, projs)
 
 
+def render_like(proj, tree):
+    """render a (shrunk) tree the way the program it came from was written (minimal or full parentheses)"""
+    coregen.MINIMAL_PARENS = bool(proj.get("minimal_parens"))
+    try:
+        return coregen.render_ms(tree)
+    finally:
+        coregen.MINIMAL_PARENS = False
+
+
 def slim(proj):
     return {k: v for k, v in proj.items() if k != "tree"}
 
@@ -210,16 +219,16 @@ def report_results(ctx, binary, results, label, shrink_budget=40, max_shrinks=1)
             if tree is not None and shrinks < max_shrinks:
                 shrinks += 1
 
-                def fails(t, k=k):
+                def fails(t, k=k, proj=proj):
                     t = coregen.assign_spans([s[:2] if s[0] == "assert" else s for s in t], "main.ms")
-                    p = {"name": "shrunk", "files": {"main.ms": coregen.render_ms(t)}, "entry": "main.ms", "tree": t}
+                    p = {"name": "shrunk", "files": {"main.ms": render_like(proj, t)}, "entry": "main.ms", "tree": t}
                     rr = tie_all(ctx, binary, [p], label)[0]
                     return rr["status"] == "ran" and rr["t3"][0] == k
                 try:
                     small = coregen.shrink(tree, fails, budget=shrink_budget)
                 except Exception:
                     small = tree
-            src = coregen.render_ms(small) if small is not None else proj["files"]["main.ms"]
+            src = render_like(proj, small) if small is not None else proj["files"]["main.ms"]
             ctx.report("semantics:" + k.split(":", 1)[1],
                        "running the program differs from the language semantics (%s): %s\n%s" % (k, str(t3[1])[:300], src[:700]),
                        {"program": src, "original": proj["files"]["main.ms"], "difference": t3[1],
